@@ -50,6 +50,7 @@ type plRun struct {
 	after    []error // IngestRows / Flush results after Stop returned
 	trace    []string
 	conv     *traceConv
+	obs      *ackObserver
 }
 
 func badRow() map[string]any { return map[string]any{"x": make(chan int)} }
@@ -103,8 +104,9 @@ func runPlScenario(r Rng, sc plScenario) *plRun {
 	conv.cap = sc.IngestCap
 	run.conv = conv
 	var bmu sync.Mutex
-	quit := make(chan struct{})
-	var recvWG sync.WaitGroup
+	obs := newAckObserver()
+	run.obs = obs
+	go obs.loop()
 	nextID := 0
 	mkBatch := func() *batch {
 		bmu.Lock()
@@ -141,27 +143,19 @@ func runPlScenario(r Rng, sc plScenario) *plRun {
 		if b.kind == "bad" {
 			rows[len(rows)-1] = badRow()
 		}
+		b.mu.Lock()
+		b.tCall = time.Now()
+		b.mu.Unlock()
 		if !b.abandon {
-			recvWG.Add(1)
-			go func() {
-				defer recvWG.Done()
-				for {
-					select {
-					case v := <-b.ch:
-						b.mu.Lock()
-						b.got = append(b.got, v)
-						b.gotAt = append(b.gotAt, time.Now())
-						b.mu.Unlock()
-					case <-quit:
-						return
-					}
-				}
-			}()
+			obs.register(b)
 		}
 		ctx, cancel := context.WithTimeout(context.Background(), 3*time.Second)
-		b.tCall = time.Now()
-		b.ret = eng.IngestRows(ctx, rows, b.ch)
+		ret := eng.IngestRows(ctx, rows, b.ch)
+		b.mu.Lock()
+		b.ret = ret
 		b.tRet = time.Now()
+		b.returned = true
+		b.mu.Unlock()
 		cancel()
 	}
 	for i := 0; i < sc.BeforeStart; i++ {
@@ -190,6 +184,9 @@ func runPlScenario(r Rng, sc plScenario) *plRun {
 			fb.tCall = time.Now()
 			fb.ret = eng.Flush(ctx)
 			fb.tRet = time.Now()
+			if fb.ret == nil {
+				obs.flushReturned(fb.tCall)
+			}
 			cancel()
 			bmu.Lock()
 			run.flushes = append(run.flushes, fb)
@@ -248,8 +245,7 @@ func runPlScenario(r Rng, sc plScenario) *plRun {
 		cancel()
 	}
 	time.Sleep(30 * time.Millisecond)
-	close(quit)
-	recvWG.Wait()
+	obs.stop()
 	run.events = rec.snapshot()
 	run.trace = conv.convert(run.events)
 	return run
@@ -361,45 +357,11 @@ func checkRun(c *ctx, run *plRun, which string) {
 			_ = fb // Flush returns its own answer; nothing is left pending by construction
 		}
 	}
-	// ---- C07: order
+	// ---- C07: order. The observations were made exactly, at the moment each nil answer was received /
+	// Flush returned (see ackObserver): no wall-clock comparison of goroutines is involved.
 	if which == "C07" {
-		for _, b := range run.batches {
-			vals := b.values()
-			if b.ret != nil || len(vals) == 0 || vals[0] != nil || b.kind == "empty" {
-				continue
-			}
-			b.mu.Lock()
-			at := b.gotAt[0]
-			b.mu.Unlock()
-			for _, a := range run.batches {
-				if a == b || a.ret != nil || a.kind == "empty" || a.abandon || !a.tRet.Before(b.tCall) {
-					continue
-				}
-				av := a.values()
-				a.mu.Lock()
-				late := len(av) == 0 || a.gotAt[0].After(at.Add(25*time.Millisecond))
-				a.mu.Unlock()
-				if late {
-					c.r.Add(Finding{Kind: "violation", Check: "ack-order", Detail: fmt.Sprintf("batch %d received nil but batch %d, accepted before it was submitted, had not been answered (values %v)", b.id, a.id, av), Replay: run.replay()})
-				}
-			}
-		}
-		for _, fb := range run.flushes {
-			if fb.ret != nil {
-				continue
-			}
-			for _, a := range run.batches {
-				if a.ret != nil || a.kind == "empty" || a.abandon || !a.tRet.Before(fb.tCall) {
-					continue
-				}
-				av := a.values()
-				a.mu.Lock()
-				late := len(av) == 0 || a.gotAt[0].After(fb.tRet.Add(25*time.Millisecond))
-				a.mu.Unlock()
-				if late {
-					c.r.Add(Finding{Kind: "violation", Check: "flush-barrier", Detail: fmt.Sprintf("Flush returned nil but batch %d, accepted before Flush was called, had not been answered", a.id), Replay: run.replay()})
-				}
-			}
+		for _, v := range run.obs.violations() {
+			c.r.Add(Finding{Kind: "violation", Check: v.check, Detail: v.detail, Replay: run.replay()})
 		}
 	}
 	// ---- C08
@@ -485,4 +447,165 @@ func runPipeline(c *ctx, which string) {
 		run := runPlScenario(r, sc)
 		checkRun(c, run, which)
 	}
+}
+
+// ackObserver decides "answered before" without comparing clocks of different goroutines wherever Go lets
+// it. Buffered done channels are drained by one polling goroutine: receiving a value, marking the batch
+// answered and running the order check happen under one mutex, and a batch counts as answered iff its value
+// was received or sits in its channel's buffer - exact. Unbuffered channels need a receiver that is always
+// parked (the engine's send gives up when its context is done and nobody is receiving), so each has its own
+// goroutine; between the completion of such a receive and its marking there is an unavoidable window, so an
+// unbuffered batch found unanswered is given a grace period (ackGrace) before it counts.
+type ackObserver struct {
+	mu      sync.Mutex
+	batches []*batch
+	viol    []ackViolation
+	pending []ackPending
+	quit    chan struct{}
+	done    chan struct{}
+	wg      sync.WaitGroup
+}
+
+const ackGrace = 250 * time.Millisecond
+
+type ackViolation struct{ check, detail string }
+
+type ackPending struct {
+	check, what string
+	a           *batch
+	at          time.Time
+}
+
+func newAckObserver() *ackObserver {
+	return &ackObserver{quit: make(chan struct{}), done: make(chan struct{})}
+}
+
+func (o *ackObserver) register(b *batch) {
+	o.mu.Lock()
+	o.batches = append(o.batches, b)
+	o.mu.Unlock()
+	if b.chanCap == 0 {
+		o.wg.Add(1)
+		go func() {
+			defer o.wg.Done()
+			for {
+				select {
+				case v := <-b.ch:
+					t := time.Now()
+					o.mu.Lock()
+					o.record(b, v, t)
+					o.mu.Unlock()
+				case <-o.quit:
+					return
+				}
+			}
+		}()
+	}
+}
+
+// answered: caller holds o.mu.
+func answered(a *batch) bool {
+	a.mu.Lock()
+	n := len(a.got)
+	a.mu.Unlock()
+	return n > 0 || len(a.ch) > 0
+}
+
+// checkBefore examines the non-empty batches whose IngestRows returned nil before t: a buffered one that is
+// not answered is a violation now; an unbuffered one is re-examined after the grace period. Caller holds o.mu.
+func (o *ackObserver) checkBefore(t time.Time, except *batch, check, what string) {
+	var un []int
+	for _, a := range o.batches {
+		if a == except || a.kind == "empty" {
+			continue
+		}
+		a.mu.Lock()
+		before := a.returned && a.ret == nil && a.tRet.Before(t)
+		a.mu.Unlock()
+		if !before || answered(a) {
+			continue
+		}
+		if a.chanCap == 0 {
+			o.pending = append(o.pending, ackPending{check, what, a, time.Now()})
+		} else {
+			un = append(un, a.id)
+		}
+	}
+	if len(un) > 0 {
+		o.viol = append(o.viol, ackViolation{check, fmt.Sprintf("%s while batches %v, accepted earlier, had not been answered", what, un)})
+	}
+}
+
+// record marks one received value and runs the order check. Caller holds o.mu.
+func (o *ackObserver) record(b *batch, v error, at time.Time) {
+	b.mu.Lock()
+	b.got = append(b.got, v)
+	b.gotAt = append(b.gotAt, at)
+	first := len(b.got) == 1
+	tCall := b.tCall
+	b.mu.Unlock()
+	if v == nil && first && b.kind != "empty" {
+		o.checkBefore(tCall, b, "ack-order", fmt.Sprintf("batch %d received nil", b.id))
+	}
+}
+
+func (o *ackObserver) pollBuffered() {
+	o.mu.Lock()
+	defer o.mu.Unlock()
+	for _, b := range o.batches {
+		if b.chanCap == 0 {
+			continue
+		}
+		for more := true; more; {
+			select {
+			case v := <-b.ch:
+				o.record(b, v, time.Now())
+			default:
+				more = false
+			}
+		}
+	}
+}
+
+func (o *ackObserver) loop() {
+	defer close(o.done)
+	for {
+		o.pollBuffered()
+		select {
+		case <-o.quit:
+			o.pollBuffered()
+			return
+		default:
+			time.Sleep(20 * time.Microsecond)
+		}
+	}
+}
+
+// flushReturned is called by a Flush caller right after Flush returned nil.
+func (o *ackObserver) flushReturned(tCall time.Time) {
+	o.mu.Lock()
+	o.checkBefore(tCall, nil, "flush-barrier", "Flush returned nil")
+	o.mu.Unlock()
+}
+
+func (o *ackObserver) stop() {
+	close(o.quit)
+	<-o.done
+	o.wg.Wait()
+	o.mu.Lock()
+	for _, p := range o.pending {
+		p.a.mu.Lock()
+		late := len(p.a.gotAt) == 0 || p.a.gotAt[0].After(p.at.Add(ackGrace))
+		p.a.mu.Unlock()
+		if late {
+			o.viol = append(o.viol, ackViolation{p.check, fmt.Sprintf("%s while batch %d (unbuffered done channel), accepted earlier, had not been answered %v later", p.what, p.a.id, ackGrace)})
+		}
+	}
+	o.mu.Unlock()
+}
+
+func (o *ackObserver) violations() []ackViolation {
+	o.mu.Lock()
+	defer o.mu.Unlock()
+	return append([]ackViolation(nil), o.viol...)
 }
